@@ -234,7 +234,10 @@ def r_lowering_tags(c):
         src = ast.unparse(fd)
         produces = ("prim." in src or "IndexLambda(" in src or "ast.Call(" in src
                     or "Reduce(" in src)
-        if not produces:
+        has_tag_test = any(isinstance(x, ast.Call) and isinstance(x.func, ast.Attribute)
+                           and x.func.attr in TAG_TESTS for x in ast.walk(fd))
+        # helpers that only COMPUTE a tag test (returned to a producer) count too
+        if not produces and not has_tag_test:
             continue
         n_funcs += 1
         qn = m.qualname(fd).replace("pytato.", "", 1)
@@ -249,19 +252,28 @@ def r_lowering_tags(c):
                 tagref = ast.unparse(n.args[1])
             if tagref is None:
                 continue
-            # used in control flow?
+            # used in control flow, or handed back to the caller (a helper whose
+            # result the caller branches on)?
             p = n
             ctrl = False
+            per_item = False
             while p is not None and p is not fd:
                 par = getattr(p, "_parent", None)
                 if isinstance(par, (ast.If, ast.IfExp, ast.While)) and par.test is p:
                     ctrl = True
-                if isinstance(par, (ast.BoolOp, ast.UnaryOp, ast.Compare)):
-                    pass
+                    # the documented promise is per index: the test sits directly in
+                    # the `if` of the branch that lowers THAT index (receiver = the
+                    # loop variable), not in an any()/all() over all of them
+                    per_item = isinstance(n.func, ast.Attribute) \
+                        and isinstance(n.func.value, ast.Name) and p is n or (
+                            isinstance(p, ast.UnaryOp) and p.operand is n)
+                if isinstance(par, (ast.Return, ast.Assign, ast.comprehension)) \
+                        or (isinstance(par, ast.Call) and ast.unparse(par.func) in ("any", "all")):
+                    ctrl = True
                 p = par
             if not ctrl:
                 continue
-            why = ALLOWED_TAG_DEPENDENCE.get((qn, tagref.split(".")[-1]))
+            why = ALLOWED_TAG_DEPENDENCE.get((qn, tagref.split(".")[-1])) if per_item else None
             inst = f"{tagref}:{m.frag(n, 40)}"
             if why:
                 c.exempt("R07-LOWERING-TAGS", qn, inst, m.loc(mi, n), why)
